@@ -122,20 +122,31 @@ func Active() bool { return get() != nil }
 func get() *Sim { return (*Sim)(atomic.LoadPointer(&cur)) }
 
 // ---- goroutine identity without shared synchronisation ----
+//
+// goroutine id -> *G in an open-addressed table of atomics. A key carries the generation of the
+// simulation it belongs to (upper 16 bits), so entries of earlier simulations count as free
+// slots and the table never has to be cleared; two goroutines only touch the same slot on a
+// hash collision, so lookups add no happens-before edges between simulated goroutines.
 
-const tabBits = 11
+const tabBits = 16
 const tabSize = 1 << tabBits
 
 var (
 	tabKeys [tabSize]uint64
 	tabVals [tabSize]unsafe.Pointer
+	curGen  uint64 // atomic; 1..65535
 )
 
 func resetTable() {
-	for i := range tabKeys {
-		atomic.StoreUint64(&tabKeys[i], 0)
-		atomic.StorePointer(&tabVals[i], nil)
+	g := atomic.LoadUint64(&curGen) + 1
+	if g > 0xffff {
+		// generations wrap: clear the table once so that no stale key can look current
+		for i := range tabKeys {
+			atomic.StoreUint64(&tabKeys[i], 0)
+		}
+		g = 1
 	}
+	atomic.StoreUint64(&curGen, g)
 }
 
 func goid() uint64 {
@@ -150,26 +161,39 @@ func goid() uint64 {
 func slot(id uint64) uint64 { return (id * 0x9e3779b97f4a7c15) >> (64 - tabBits) }
 
 func bind(g *G) {
-	id := goid()
-	for i := slot(id); ; i = (i + 1) & (tabSize - 1) {
-		if atomic.CompareAndSwapUint64(&tabKeys[i], 0, id) {
-			atomic.StorePointer(&tabVals[i], unsafe.Pointer(g))
-			return
+	gen := atomic.LoadUint64(&curGen)
+	key := gen<<48 | (goid() & 0xffffffffffff)
+	i := slot(key & 0xffffffffffff)
+	for n := 0; n < tabSize; n++ {
+		k := atomic.LoadUint64(&tabKeys[i])
+		if k>>48 != gen {
+			// free, or left over from an earlier simulation
+			if atomic.CompareAndSwapUint64(&tabKeys[i], k, key) {
+				atomic.StorePointer(&tabVals[i], unsafe.Pointer(g))
+				return
+			}
+			continue // lost the slot to another new goroutine: look at it again
 		}
+		i = (i + 1) & (tabSize - 1)
 	}
+	panic("simrt: more than 65536 goroutines in one simulated run")
 }
 
 func self() *G {
-	id := goid()
-	for i := slot(id); ; i = (i + 1) & (tabSize - 1) {
+	gen := atomic.LoadUint64(&curGen)
+	key := gen<<48 | (goid() & 0xffffffffffff)
+	i := slot(key & 0xffffffffffff)
+	for n := 0; n < tabSize; n++ {
 		k := atomic.LoadUint64(&tabKeys[i])
-		if k == id {
+		if k == key {
 			return (*G)(atomic.LoadPointer(&tabVals[i]))
 		}
-		if k == 0 {
+		if k>>48 != gen {
 			return nil
 		}
+		i = (i + 1) & (tabSize - 1)
 	}
+	return nil
 }
 
 // ---- seeded streams ----
